@@ -58,6 +58,8 @@ type Case struct {
 	// key format / fixed-size helper cases: index of the format, number of values
 	Fmt   int `json:"fmt,omitempty"`
 	NVals int `json:"nvals,omitempty"`
+	// connection state machine stream
+	Script []connOp `json:"script,omitempty"`
 	// search stream
 	Target string `json:"target,omitempty"`
 	// provenance (not needed for replay)
@@ -936,6 +938,8 @@ func main() {
 			*mode = "search"
 		} else if c.Kind == "mux" {
 			*mode = "mux"
+		} else if c.Kind == "conn" {
+			*mode = "conn"
 		} else if c.Kind == "rhpstack" {
 			*mode = "rhpstack"
 			*n = 1
@@ -949,6 +953,10 @@ func main() {
 	}
 	if *mode == "mux" {
 		runMux(*seed, *n, *out, rc)
+		return
+	}
+	if *mode == "conn" {
+		runConn(*seed, *n, *out, rc)
 		return
 	}
 	if *mode == "rhpstack-child" {
